@@ -206,6 +206,7 @@ from iodata import load_one, load_many, dump_one, dump_many
 repo = os.path.dirname(os.path.dirname(iodata.__file__))
 data = os.path.join(repo, "iodata", "test", "data")
 tmp = tempfile.mkdtemp()
+__import__("atexit").register(__import__("shutil").rmtree, tmp, True)
 fails, cases = [], 0
 PAIRS = [("water.xyz", "out.pdb", []), ("water.xyz", "out.sdf", []), ("water_trajectory.xyz", "traj.pdb", ["-m"]), ("h2o_sto3g.fchk", "out.molden", []), ("h2o_sto3g.fchk", "out.wfn", []),
          ("h2o_sto3g.fchk", "out.xyz", []), ("water.xyz", "o.dat", ["-o", "mol2"]), ("water.xyz", "out.fchk", []), ("h2o_sto3g.fchk", "o2.dat", ["--outfmt", "wfx"]), ("water.xyz", "out.nonsense", []),
